@@ -5,6 +5,8 @@ package evalfilter
 // C13 - a script that cannot be fully translated is rejected by Prepare.
 
 import (
+	"strings"
+
 	"github.com/skx/evalfilter/v2/zzsv"
 )
 
@@ -50,6 +52,10 @@ var zzBadFrags = []zzFrag{
 	{"a | b", false},
 	{"@", false},
 	{"a \x00 b", false},                   // NUL in the middle of the text
+	{"a %X b", false},                     // any character outside the language's alphabet ...
+	{"a%Xb", false},                       // ... also glued to identifiers
+	{"%X", false},
+	{"%I%X(1)", false},
 	{"case 1 { t(1); }", true},            // case outside a switch
 	{"switch (a) { default { t(1); } default { t(2); } }", true},
 	{"foreach in a { t(1); }", true},
@@ -115,6 +121,14 @@ func zzFill(sv *zzsv.T, tmpl string) string {
 				sv.Assume(b[0] >= 'g')
 				sv.Assume(b[0] <= 'm')
 				out += b
+			case 'X':
+				// an ASCII character that no token of the language contains
+				// outside string and regexp literals: control characters
+				// other than blanks, # @ \ ^ ` and DEL
+				b := sv.String("illegal", 1)
+				c := b[0]
+				sv.Assume(sv.Any(c >= 1 && c <= 8, c == 11, c == 12, c >= 14 && c <= 31, c == 127, c == '#', c == '@', c == '\\', c == '^', c == '`'))
+				out += b
 			case 'D':
 				b := sv.String("digit", 1)
 				sv.Assume(b[0] >= '0')
@@ -147,6 +161,11 @@ func zzPlug(ctx string, frag string) string {
 func ZZ_C13_FragmentInContext(sv *zzsv.T) {
 	fr := zzBadFrags[sv.Choice("fragment", len(zzBadFrags))]
 	depth := 1 + sv.Choice("depth", sv.Param("ctx.depth", 2, 3))
+	if strings.Contains(fr.text, "%X") {
+		// (any character outside the alphabet: one context level in the quick
+		// tier - the lexer meets the character the same way at every depth)
+		sv.Assume(depth <= sv.Param("ctx.depth.illegalchar", 1, 2))
+	}
 	frag := zzFill(sv, fr.text)
 	good := "7"
 	inFunc := false
